@@ -47,5 +47,19 @@ def alignLeft (s : Shape) (idx : List Nat) : List Nat :=
 /-- `set_axes(ndim, arr, axes)` for an integer `axes`: new batch shape -/
 def setAxes (batch : Shape) (axis : Nat) : Shape := List.replicate axis 1 ++ batch
 
+/-- `shift.get_grid(grid, kdim)`: one cell size per coordinate axis from the values given (a scalar is a one-entry list):
+    the LAST value is repeated for further axes, surplus values are dropped -/
+def getGrid {α : Type} (g : List α) (kdim : Nat) : List α :=
+  match g.getLast? with
+  | none => []
+  | some l => (g ++ List.replicate (kdim - g.length) l).take kdim
+
+/-- `shift.append_batch_axes(shift, ndim)`: shape of a shift array (batch axes..., kdim) aligned with the first axes of a
+    state matrix with `ndim` batch axes: singleton axes are inserted before the last axis -/
+def appendBatchAxes (s : Shape) (ndim : Nat) : Shape :=
+  match s.getLast? with
+  | none => []      -- `np.asarray(shift)` of a scalar: `reshape(() + (1,)*n + ())` is rejected for n > 0; not used (shifts are ≥ 1-d there)
+  | some l => s.dropLast ++ List.replicate (ndim - (s.length - 1)) 1 ++ [l]
+
 end Shp
 end EpgVerif
